@@ -317,6 +317,25 @@ CLAIMS["C15"] = dict(
          "taken as reference. The dbt path (adapt_dbt_query) is not analysed.",
     technique="abstract interpretation of the time-series planner and its helpers over the finite operator x filter x grouping space against reference window/range queries")
 
+# rules added after the claim texts were written (DESIGN 9.19): appended to the claim text of the property
+ADDENDA = {
+    "C01": " Also: numbers print as one numeric literal of the library's lexer that reads back as the value (C07's table, incl. 1e+16 / 1e-07).",
+    "C03": " Also: an operator token spelled with several words is one token under every ignored white space between the words (ordered-lexer simulation).",
+    "C04": " Also: parse_sql (interpreted with recording stand-ins) hands the lexer the caller's text, trimmed only at its ends; a part of a name is never the "
+           "re-printed value of a numeric nonterminal.",
+    "C06": " Also: no branch of an isinstance dispatch of the renderer is shadowed by an earlier branch for an ancestor class (real hierarchy); EXISTS / NOT EXISTS / "
+           "NOT / unary minus by interpretation.",
+    "C07": " Also: the printed literal is decoded back by the library's own interpreted decoder (C04's table), not only by the reference decoder.",
+    "C08": " Also: plan_join_tables interpreted end to end for every join kind x 2 / 3 tables x placement of the conjuncts: under an outer join the re-applied WHERE keeps "
+           "every conjunct.",
+    "C09": " Also: no mutable default argument in the planner is stored, returned, handed on or changed (one step list shared by every plan).",
+    "C10": " Also: resolve_table followed by process_table (both interpreted) names <integration>.<rest of the name as written> in the fetch.",
+    "C12": " Also: a second execute_steps on the same prepared statement is refused or binds the new values to a statement that still has its placeholders.",
+    "C13": " Also: the components of unpacked elements of one field are visited in one loop, not in separate passes.",
+    "C16": " Also: every embedding production interpreted with the real node constructors: the node holds exactly the text tokens_to_string rebuilt.",
+    "C20": " Also: no mutable default argument (list / dict / set display) is stored, returned, handed on or changed by its function.",
+}
+
 NA_PENDING = "check under construction in this session; not claimed until its rule module is committed"
 
 
@@ -352,7 +371,7 @@ def main():
                 "evidence_file": f"/verif/evidence/{pid}.json",
                 "replay_cmd_template": f"./check {pid} --replay {{path}}",
                 "engine": c["engine"],
-                "level_claimed": {"category": c["level"], "text": c["text"], "design_ref": f"DESIGN.md section 4, {pid}"},
+                "level_claimed": {"category": c["level"], "text": c["text"] + ADDENDA.get(pid, ""), "design_ref": f"DESIGN.md section 4, {pid}"},
                 "level_note": c["note"],
                 "technique": c["technique"],
             })
